@@ -269,6 +269,7 @@ impl World {
                 self.apply_quiet(&Action::Restart { n: *n })?;
             }
             if self.nodes[n].running() {
+                self.apply_quiet(&Action::Notify { n: *n })?;
                 self.apply_quiet(&Action::StorageFault { n: *n, log_unavailable: false, snap_unavailable: false })?;
                 self.apply_quiet(&Action::EntriesFetched { n: *n })?;
                 // knobs that could throttle to zero are reset (an inflight cap of 0 disables a peer by design)
